@@ -36,8 +36,9 @@ type fakePeer struct {
 
 	conn *simConn // fake's endpoint of the connection
 	// the node's outbound stream (node -> fake); fake's endpoint
-	in    *simStream
-	inGen int
+	in       *simStream
+	inGen    int
+	inOpened time.Duration
 	// fake's outbound stream (fake -> node); fake's endpoint
 	out *simStream
 
@@ -68,6 +69,7 @@ func (h *simHost) fakeAccept(remote *simStream) {
 	}
 	fp.in = remote
 	fp.inGen++
+	fp.inOpened = fp.s.now()
 	fp.rbuf = nil
 	gen := fp.inGen
 	remote.rd.sink = func(t time.Duration, b []byte) { fp.onBytes(gen, t, b) }
@@ -242,6 +244,17 @@ func (fp *fakePeer) stall(v bool) {
 	if fp.in != nil && fp.in.peer != nil {
 		fp.in.peer.wr.setStalled(v)
 	}
+}
+
+// inGenFrames: frames received on the current generation of the node's outbound stream.
+func (fp *fakePeer) inGenFrames() int {
+	n := 0
+	for _, o := range fp.recv {
+		if o.stream == fp.inGen {
+			n++
+		}
+	}
+	return n
 }
 
 func (fp *fakePeer) stalledNow() bool {
